@@ -14,11 +14,11 @@ for S in seeded/*/; do
   name=$(basename $S)
   ids=$(python3 -c "import json,os;f='$V/$S/meta.json';print(' '.join(json.load(open(f)).get('check_with',['$name'[:3]]) if os.path.exists(f) else ['$name'[:3]]))")
   if ! git -C $R apply "$V/$S/patch.diff" 2>/dev/null; then
-    if ! git -C $R apply -3 "$V/$S/patch.diff" 2>/dev/null; then echo "$name PATCH-DOES-NOT-APPLY"; git -C $R checkout -- . ; git -C $R reset -q; continue; fi
+    if ! git -C $R apply -3 "$V/$S/patch.diff" 2>/dev/null; then echo "$name PATCH-DOES-NOT-APPLY"; git -C $R reset -q; git -C $R checkout -- . ; continue; fi
   fi
   res=""
   for p in $ids; do o=$(./check $p quick 2>&1); rc=$?; res="$res $p=$rc [$(echo "$o" | grep -m1 -o 'violation\[[^]]*\]')]"; done
-  git -C $R checkout -- . 2>/dev/null; git -C $R reset -q 2>/dev/null
+  git -C $R reset -q 2>/dev/null; git -C $R checkout -- . 2>/dev/null
   echo "$name$res"
 done
 rm -rf $V $R
